@@ -9,6 +9,8 @@
     * `drawTensorSamples`    ↔ `draw_tensor_samples`     (distributions.rs:485-545), which both
                                `MultivariateGaussian::draw` (names "samples"/"features") and
                                `MultivariateGaussianTensor::draw` call
+    * `approximating`        ↔ `Gaussian::approximating` (distributions.rs:150-161), on the C14 models
+                               of `mean` / `variance`
     * `mvNewMatrix`, `mvNewTensor` ↔ the constructors' validation (distributions.rs:284-296, 433-455)
 
   The uniform source (`&mut impl Iterator<Item = T>`) is a list; every function returns the
@@ -16,6 +18,7 @@
   Polymorphic over the numeric classes of `Model/Fp.lean`.  Core Lean only.
 -/
 import EasyMl.Model.Decomp
+import EasyMl.Model.Stats
 
 namespace EasyMl.Gaussian
 open EasyMl.Decomp
@@ -126,6 +129,20 @@ def mvDrawTensor [NumOrd α] (mean : List α) (covariance : Matrix α) (source :
   drawTensorSamples mean covariance source maxSamples (samples == features)
 
 end
+
+/-! ### fitting a Gaussian to data -/
+
+/-- `Gaussian::approximating` (distributions.rs:150-161): the struct fields are evaluated in
+    order — `linear_algebra::mean` of the data (which asserts that there is data), then
+    `linear_algebra::variance`.  Result `(mean, variance)`. -/
+def approximating {α : Type} [Add α] [Sub α] [Mul α] [Div α] [Zero α] [One α] (data : List α) :
+    Outcome (α × α) :=
+  match Stats.mean data with
+  | .panic k => .panic k
+  | .ok m =>
+    match Stats.variance data with
+    | .panic k => .panic k
+    | .ok v => .ok (m, v)
 
 /-! ### constructor validation -/
 
